@@ -78,6 +78,7 @@ pub fn check_case(case: &Value, targets: &[String], max_perms: usize) -> Vec<Val
         if maxl != case["max"].as_i64().unwrap() {
             out.push(json!({"what": "max_log_level", "expected": case["max"], "actual": maxl, "order": lperm}));
         }
+        let decoy: &str = case["loggers"].as_array().unwrap().first().and_then(|l| l["name"].as_str()).unwrap_or("a::a");
         'targets: for (ti, t) in targets.iter().enumerate() {
             let (thr, exp) = classes[idx[ti]];
             for l in 1..=5i64 {
@@ -93,7 +94,10 @@ pub fn check_case(case: &Value, targets: &[String], max_perms: usize) -> Vec<Val
                 }
                 let r = catch(|| {
                     built.logger.log(
-                        &log::Record::builder().target(t).level(level(l)).args(format_args!("m")).build(),
+                        // module path, file and line must play no part in routing: give them values that
+                        // name configured loggers
+                        &log::Record::builder().target(t).level(level(l)).module_path(Some(decoy)).file(Some("a::b")).line(Some(1))
+                            .args(format_args!("m")).build(),
                     )
                 });
                 if let Err(p) = r {
